@@ -28,7 +28,7 @@ ASSUMPTIONS = [
     "implicit rules, no filter ACL; storage stub only provides flush_perf()",
     "two generators sharing a parent block must both mark it cant_delete, otherwise the shared parent itself is a conflict",
 ]
-BUDGET = {"quick": 120, "thorough": 900}
+BUDGET = {"quick": 150, "thorough": 1500}
 PREFIX = "undo"
 
 ROWS = ["a", "b x", "c", "d 1"]     # block heads add: "d 0" (numeric zero token)
